@@ -1,6 +1,7 @@
 """C27 — metadata cache entries round-trip and are replaced atomically."""
 import ast
 
+from ..core import generic as G
 from ..core import astutil as A
 from ..core import cfg as CFG
 from ..core import match as M
@@ -187,6 +188,10 @@ def run(ctx):
     gt = P.func(FH, "database._getitem")
     ctx.check("R5", gt, M.has(gt.node, "$data = readlines_utf8($path, True, True, True)\nif $data is None:\n    raise KeyError(cpv)"), "missing-is-keyerror", "a missing entry is a KeyError, unreadable content is CacheCorruption")
     ctx.floor("R5", 5)
+
+    # ---- R6 an entry is replaced in one step -------------------------------------------------------------------------
+    G.publication(ctx, "R6", FH, "database._setitem", {"param:cpv"}, "the cache entry")
+    ctx.floor("R6", 1)
 
 
 F = "src/pkgcore/cache/flat_hash.py"
